@@ -158,6 +158,9 @@ func Hash64(parts ...[]byte) uint64 {
 func Rapid(t *testing.T, name string, quick, thorough int, prop func(*rapid.T)) {
 	t.Helper()
 	n := Pick(quick, thorough)
+	if pct := envInt("VERIF_SCALE_PCT", 100); pct != 100 && pct > 0 {
+		n = n * pct / 100 // sensitivity sweeps only; registered commands never set it
+	}
 	n = (n + nshards - 1) / nshards
 	if n < 1 {
 		n = 1
